@@ -705,6 +705,54 @@ pub fn gen_script(rng: &mut Rng, start: &Pos, flavor: Flavor, max_steps: usize) 
 
 /// Equality probes (C13): chains built from a DIFFERENT start position with the same UCI list (`alt`), and
 /// reversible cycles from a start whose counters are saturated, each followed by `eq`.
+/// C04 / C13: chains that contain null moves (recorded with `push_unchecked`, as search code does), walked back and
+/// forth, popped and pushed again. No printed forms (a null move has no SAN).
+pub fn gen_null_line(rng: &mut Rng, start: &Pos) -> Script {
+    crate::set_current(&format!("chain {} ; <script being generated>", start.raw_text()));
+    let mut g = G {
+        rng,
+        sim: ChainSim::new(start.board.clone()),
+        steps: Vec::new(),
+        obs: BTreeMap::new(),
+        max: 60,
+        st_pct: 30,
+    };
+    g.emit("st".to_string());
+    let n = 2 + g.rng.usize(6);
+    for _ in 0..n {
+        match g.rng.usize(4) {
+            0 | 1 => g.act_push_legal(),
+            2 => {
+                g.step("pn".to_string());
+            }
+            _ => {
+                if !g.sim.cur.is_empty() {
+                    g.step("pop".to_string());
+                }
+            }
+        }
+    }
+    g.step("pn".to_string());
+    g.act_push_legal();
+    g.step("st".to_string());
+    g.act_walk();
+    g.step("w sneppnnpspe".to_string());
+    for _ in 0..(1 + g.rng.usize(3)) {
+        if !g.sim.cur.is_empty() {
+            g.step("pop".to_string());
+        }
+    }
+    g.step("st".to_string());
+    g.act_push_legal();
+    g.act_walk();
+    g.emit("st".to_string());
+    let final_len = g.sim.cur.len();
+    let steps = g.steps;
+    let obs = g.obs;
+    let line = format!("chain {} ; {}", start.raw_text(), steps.join(" ; "));
+    Script { line, steps, final_len, obs }
+}
+
 /// C17 / C09: a fixed line of moves from a start position, then the printed forms (all styles) and a walk
 pub fn gen_line(rng: &mut Rng, start: &Pos, line: &[Move]) -> Script {
     let pushes: Vec<String> = line.iter().map(|m| format!("pm {}", mv_fmt(m))).collect();
